@@ -322,8 +322,12 @@ def st_invert(draw, partial=False):
         if not partial:
             tparts = list(draw(st.permutations(tparts)))
     if partial:
-        keep = draw(st.sampled_from([0, 1, 2, 3]))
-        tparts = tparts[:keep] if tkind != "X" else (tparts if keep else [])
+        if tkind == "X":
+            tparts = tparts if draw(st.booleans()) else []
+        else:
+            # any subset of the time directives (e.g. %H %S without %M)
+            mask = draw(st.integers(0, 7))
+            tparts = [t for i, t in enumerate(tparts) if mask >> i & 1]
     s3 = _sep(draw)
     tpart = s3.join(tparts)
     zone = "%z"
